@@ -376,4 +376,22 @@ theorem Packer.Inv.blob_bytes {p : Packer} (h : p.Inv) (i : Nat) (b : IndexBlob)
   rw [hoff, hlen]
   exact chunk_slice p.file i c hc
 
+/-- every chunk in the packer's file is the data of some `add_raw` call -/
+theorem Packer.run_file_subset (p : Packer) (adds : List (Bytes × Nat × Option Nat)) :
+    ∀ c ∈ (p.run adds).file, c ∈ p.file ∨ ∃ a ∈ adds, c = a.1 := by
+  induction adds generalizing p with
+  | nil => intro c hc; exact Or.inl hc
+  | cons a as ih =>
+    intro c hc
+    simp only [Packer.run, List.foldl_cons] at hc
+    rcases ih (p.addRaw a.1 a.2.1 a.2.2) c hc with h | ⟨b, hb, rfl⟩
+    · unfold Packer.addRaw at h
+      split at h
+      · exact Or.inl h
+      · simp only [Packer.writeData, List.mem_append, List.mem_singleton] at h
+        rcases h with h | rfl
+        · exact Or.inl h
+        · exact Or.inr ⟨a, List.mem_cons_self .., rfl⟩
+    · exact Or.inr ⟨b, List.mem_cons_of_mem _ hb, rfl⟩
+
 end Rustic.Pack
